@@ -99,9 +99,10 @@ func ruleCookie(c *Ctx) {
 			}
 		}
 	}
-	if len(entries) == 0 {
-		c.R.Violate("R-GATE/cookie", p.Pos(f.Node()), f.Name, "cookie gate before everything", "no `opts.Test == nil` branch containing the cookie validation dominates the listen and print sites", nil)
-		return
+	// test mode is exempt from the gate: edges on which opts.Test is non-nil
+	testMode := func(e *Edge) bool {
+		at, ok := edgeAtom(info, e)
+		return ok && at.Kind == "nil" && at.Op == token.NEQ && SelField(info, at.X) == testF
 	}
 	isGetenvKey := func(e ast.Expr) bool {
 		call, ok := ast.Unparen(e).(*ast.CallExpr)
@@ -138,13 +139,26 @@ func ruleCookie(c *Ctx) {
 	}
 	for _, ps := range passes {
 		ok := true
-		for _, en := range entries {
-			seen := g.Reach([]*Node{en}, nil, ps.cut)
-			for _, s := range sites {
-				if _, r := seen[s]; r {
-					ok = false
+		cutPS := ps.cut
+		// outside test mode, with this test's passing edges removed, neither site is
+		// (feasibly) reachable from the entry of Serve
+		fr := p.FeasibleReach(f, []*Node{g.Entry}, nil, func(e *Edge) bool { return cutPS(e) || testMode(e) })
+		for _, s := range sites {
+			if fr[s] {
+				ok = false
+			}
+		}
+		// the test must exist at all
+		exists := false
+		for _, m := range g.Nodes {
+			for _, e := range m.Succs {
+				if cutPS(e) {
+					exists = true
 				}
 			}
+		}
+		if !exists {
+			ok = false
 		}
 		if ok {
 			c.R.Hold("R-GATE/cookie", p.Pos(f.Node()), f.Name, ps.name, "outside test mode the listen and print sites are reachable only through this test's passing edge", true)
@@ -165,9 +179,13 @@ func ruleCookie(c *Ctx) {
 				for _, m := range g.Nodes {
 					if ds, ok := m.Ast.(*ast.DeferStmt); ok {
 						if fl, ok := ast.Unparen(ds.Call.Fun).(*ast.FuncLit); ok && p.Lit(fl) == lf {
-							for _, en := range entries {
-								if !g.Dominates(m, en) {
-									exitV = nil
+							for _, ps := range passes {
+								for _, tn := range g.Nodes {
+									for _, e := range tn.Succs {
+										if ps.cut(e) && !g.Dominates(m, tn) {
+											exitV = nil
+										}
+									}
 								}
 							}
 						}
@@ -215,7 +233,12 @@ func ruleCookie(c *Ctx) {
 						// other operands of the same || chain lead to the same failing block
 						return false
 					})
-					if _, miss := seen[g.Exit]; miss {
+					_, miss := seen[g.Exit]
+					if miss {
+						// feasibility: the failure may only be recorded in a flag first
+						miss = p.FeasibleReach(f, []*Node{e2.To}, isSet1, testMode)[g.Exit]
+					}
+					if miss {
 						// allowed only if the path continues to another gate test (|| chain)
 						cont := false
 						for _, ps2 := range passes {
